@@ -209,6 +209,11 @@ class _ReadSourceGenerator:
 
             # Everything else - basic and composite types (and arrays of them)
             else:
+                if self.align and field.offset is None:
+                    # Alignment after a dynamic field depends on the absolute stream position,
+                    # so these fields can't be merged into one statically padded block
+                    yield from flush()
+
                 if not current_block:
                     # Position the stream at the start of the block (alignment gap after a non-block field)
                     yield from align_to_field(field)
